@@ -147,7 +147,9 @@ def worker(mod, tier, seed, shard, nshards, outpath):
         for k, c in res.hooks.items():
             agg['hooks'][k] = agg['hooks'].get(k, 0) + c
         for k, c in res.notes.items():
-            if isinstance(c, int):
+            if k.startswith('max_'):
+                agg['notes'][k] = max(agg['notes'].get(k, 0), c)
+            elif isinstance(c, int):
                 agg['notes'][k] = agg['notes'].get(k, 0) + c
             else:
                 agg['notes'].setdefault(k, c)
@@ -183,7 +185,9 @@ def merge(parts):
             for k, c in p[key].items():
                 agg[key][k] = agg[key].get(k, 0) + c
         for k, c in p['notes'].items():
-            if isinstance(c, int):
+            if k.startswith('max_'):
+                agg['notes'][k] = max(agg['notes'].get(k, 0), c)
+            elif isinstance(c, int):
                 agg['notes'][k] = agg['notes'].get(k, 0) + c
             else:
                 agg['notes'].setdefault(k, c)
